@@ -60,7 +60,7 @@ def add_obligations(res, tree, rule: str) -> int:
             continue
         vfg = ea.vfg
         flags = [f for f in sf.fields if f in sf.superseded and not f.endswith("action_mask") and _set_true_chain(sf.new[f], sf.old[f])]
-        if not flags:
+        if not flags and not any(g.endswith("_mask") and not g.endswith("action_mask") for g in sf.fields):
             continue
         mapping: Dict[int, T] = {}
         for g in sf.fields:
@@ -105,5 +105,45 @@ def add_obligations(res, tree, rule: str) -> int:
                     n += 1
             if decided_any and ea.cls.name not in found_envs:
                 found_envs.append(ea.cls.name)
+        # ---- availability masks (`*_mask` State fields other than the action mask and the used flags above: slots that
+        # exist in a padded collection, operations still to schedule, nodes visited): the action mask consults each of
+        # them, and one of its two values makes the reading formula False by itself
+        for f in [g for g in sf.fields if g.endswith("_mask") and not g.endswith("action_mask") and g not in flags]:
+            for m in masks[:1]:
+                mo = rewrite(m, mapping, None, vfg)
+                universe = {d.id: d for d in deps(mo)}
+                reads = []
+                for d in universe.values():
+                    d0 = strip_cast(d)
+                    base = d0
+                    while base.kind in ("index", "elem", "copy", "batched"):
+                        base = base.args[0]
+                    if base.kind == "attr" and base.args[0] is ea.state and base.args[1] == f:
+                        reads.append(d0)
+                ux = _Universe(universe)
+                verdicts = []
+                for pol in (True, False):
+                    atoms = {d0.id: (d0, "flag", None, pol, True, f"state.{f}") for d0 in reads}
+                    forms = B.formulas_with_atoms(ux, atoms) if atoms else []
+                    for F in forms:
+                        ok, why = B.decisive(ux, F, atoms, want=False)
+                        verdicts.append((F, ok, why))
+                if not reads:
+                    res.add(rule, site, fn, f"the action mask consults the availability flags state.{f}", False,
+                            f"the mask shown with the new state does not depend on state.{f}: unavailable entries (padding, finished, visited) can be offered")
+                    n += 1
+                    continue
+                if not verdicts:
+                    res.add(rule, site, fn, f"the action mask consults the availability flags state.{f}", None, "read outside a boolean formula (not compared)")
+                    n += 1
+                    continue
+                byF = {}
+                for F, ok, why in verdicts:
+                    byF.setdefault(F.id, [F, []])[1].append(ok)
+                for F, oks in byF.values():
+                    ok = True if any(o is True for o in oks) else (None if any(o is None for o in oks) else False)
+                    res.add(rule, site, fn, f"state.{f} is decisive in the mask formula that reads it: {txt(F, 3, 80)}", ok,
+                            "one value of the flag forces the formula to False" if ok else "neither value of the flag forces the formula to False: an unavailable entry can still be offered")
+                    n += 1
     res.extra.setdefault("used_flag_environments", {})[rule] = found_envs
     return n
